@@ -29,7 +29,16 @@ def run_property(prop: str, tier: str, replay: str | None = None,
         mod.run(ctx)
         assert_not_imported()
         if tier == "thorough" and root is None and not replay:
-            _self_validate(ctx, prop)
+            from .report import load_known
+            known = {k["key"] for k in load_known()
+                     if k.get("property") == prop and k.get("status") == "known"}
+            if any(o.key not in known for o in ctx.failures):
+                # the tree itself violates the property: report that; the
+                # variant corpus is calibrated against a tree that passes
+                ctx.extra["self_validation"] = "skipped: the tree under " \
+                    "analysis has violations of its own"
+            else:
+                _self_validate(ctx, prop)
         replay_key = None
         if replay:
             with open(replay) as f:
@@ -71,8 +80,32 @@ def _self_validate(ctx, prop):
                 fired += 1
             else:
                 silent += 1
+    # stored seeded changes of this property (independent authors)
+    import glob
+    import json as _json
+    from selftest.seeds import run_one as run_seed
+    sdirs = []
+    want = {}
+    for d in sorted(glob.glob(os.path.join(here, "seeded", "*"))):
+        mp = os.path.join(d, "meta.json")
+        if os.path.isfile(mp):
+            m = _json.load(open(mp))
+            if m.get("property") == prop:
+                sdirs.append(d)
+                want[m["id"]] = m.get("expected_exit", 1)
+    seeds_ok = 0
+    with ProcessPoolExecutor(max_workers=min(16, os.cpu_count() or 4)) as ex:
+        for sid, rc, out in ex.map(run_seed, sdirs):
+            if rc is None:
+                skipped += 1
+            elif rc != want[sid]:
+                bad.append(f"seeded change {sid}: expected exit {want[sid]}, "
+                           f"got {rc}")
+            else:
+                seeds_ok += 1
     ctx.extra["self_validation"] = {
         "variants": len(todo), "firing_detected": fired, "silent_quiet": silent,
+        "seeded_changes_reported": seeds_ok,
         "inapplicable": skipped, "failed": bad}
     if bad:
         raise AnalysisError("checker self-validation failed (the checker, not "
